@@ -311,10 +311,12 @@ def check_aasx_files_equivalence(file_path_1: str, file_path_2: str, state_manag
 
     state_manager.add_step('Check if core properties are equal')
     checker2 = DataChecker(raise_immediately=False)
-    assert (isinstance(cp_1.created, datetime.datetime))
-    assert (isinstance(cp_2.created, datetime.datetime))
-    duration = cp_1.created - cp_2.created
-    checker2.check(duration.microseconds < 20, "created must be {}".format(cp_1.created), value=cp_2.created)
+    if isinstance(cp_1.created, datetime.datetime) and isinstance(cp_2.created, datetime.datetime):
+        duration = cp_1.created - cp_2.created
+        checker2.check(duration.microseconds < 20, "created must be {}".format(cp_1.created), value=cp_2.created)
+    else:
+        # packages without a creation date (or with a plain date) are compared by value
+        checker2.check(cp_1.created == cp_2.created, "created must be {}".format(cp_1.created), value=cp_2.created)
     checker2.check(cp_1.creator == cp_2.creator, "creator must be {}".format(cp_1.creator), value=cp_2.creator)
     checker2.check(cp_1.lastModifiedBy == cp_2.lastModifiedBy, "lastModifiedBy must be {}".format(cp_1.lastModifiedBy),
                    value=cp_2.lastModifiedBy)
